@@ -1,5 +1,6 @@
 /- C08 proofs: `nnx.vmap` — whenever it returns, the per-index reference computation is defined and returns the same -/
 import Flax.Proofs.NnxLoopVmapOut
+import Flax.Proofs.NnxLoopDims
 
 namespace Flax.NnxLoop
 open Flax.Filter Flax.LiftLoop
@@ -215,6 +216,10 @@ theorem nnxVmap_sound {α : Type} [Inhabited α] {inAxes outAxes : AxesSpec} {ax
       ∀ k col, column k (calls.map (·.2)) = .ok col → OutColWF col) :
     ∃ ps n, inAxes.expand args.length = .ok ps ∧ 0 < n ∧ verdict = true ∧
       inAxes.hasCarry = false ∧ outAxes.hasCarry = false ∧
+      ((∀ ep ∈ ownedAll (ps.zip args) [], ∀ k, ep.2.at ep.1 = .ok (.axis k) →
+          ∃ v, store.lookup ep.1.id = some v ∧ dimAt k v = .ok n) ∧
+        (∀ pa ∈ arrArgs (ps.zip args), ∀ k, pa.1 = .ax (.axis k) → dimAt k pa.2 = .ok n) ∧
+        (∀ m, axisSize = some m → m = n)) ∧
       vmapSpecN n outAxes body (ps.zip args) store = .ok res := by
   simp only [nnxVmap] at h
   by_cases hbad : (inAxes.isBareStateAxes || inAxes.hasCarry || outAxes.hasCarry) = true
@@ -348,7 +353,8 @@ theorem nnxVmap_sound {α : Type} [Inhabited α] {inAxes outAxes : AxesSpec} {ax
           rw [hp0] at hy
           have := vmap_collect_out ho2 hwfc hy
           simp only [collectOutAt, ho1, bindX, this]
-  refine ⟨ps, n, rfl, hnpos, rfl, ?_, ?_, ?_⟩
+  refine ⟨ps, n, rfl, hnpos, rfl, ?_, ?_, vmap_sizes_eq_n store (ps.zip args) pure dims axisSize n hpure hdims
+    (liftL_ok.1 hn), ?_⟩
   · cases hx : inAxes.hasCarry <;> simp_all
   · cases hx : outAxes.hasCarry <;> simp_all
   · have hb' : (outAxes.isBareStateAxes && decide (c0.2.length ≠ 1)) = false := by
